@@ -813,7 +813,7 @@ def run(rep):
         "(A) TLC enumerates every history of <= %d episodes over lengths 1-3 x returns {-2,0,1,3} for every configuration (window 1-3, threshold 0-6, reset weight 1/2 or 1); "
         "each transition of the observable state graph (distinct CheckpointState + epoch + configuration, episode length, return) is replayed once into the real "
         "assess_performance_and_checkpoint; a call is non-trivial when the window is non-empty, a checkpoint exists or the switch is taken. "
-        "(B) scripted train_td7 runs (fixed script covering every branch, aligned and straddling learning_starts, plus VERIF_SEED-random scripts); every episode end and "
+        "(B) scripted train_td7 runs (fixed script covering every branch, aligned and straddling learning_starts, batch_size 16 so that releases happen both with fewer and with more stored transitions than batch_size, plus VERIF_SEED-random scripts with batch_size 4/16/32); every episode end and "
         "release of each run is one validated trace event" % (5 if quick else 7)
     )
     graphs = part_a(rep, workers)
